@@ -27,8 +27,13 @@ def gen(ctx, part, lits=LITS, neg=NEG):
 def styled(e, rng):
     e = dict(e)
     if e["o"] == "n":
-        if e["v"] >= 10 and rng.random() < 0.5:
+        x = rng.random()
+        if e["v"] >= 10 and x < 0.4:
             e["sty"] = "h"
+        elif e["v"] >= 8 and x < 0.6:
+            e["sty"] = "z"        # zero-padded decimal (010 is ten)
+        elif e["v"] >= 10 and x < 0.7:
+            e["sty"] = "H"
         return e
     e["a"] = styled(e["a"], rng)
     e["b"] = styled(e["b"], rng)
